@@ -1,11 +1,189 @@
 import Driver.Wire
+import Driver.KCodec
+import Sio.Model.Client
 open Lean (Json)
 namespace Sio.KClient
-open Sio.Wire
+open Sio.Wire Sio.Client
 
-/-- stub: replaced by the kernel's line-protocol handler -/
-def step (_ : Unit) (_ : Json) : Except String (Unit × Json) := throw "kernel not implemented"
+/-! Line protocol of the client kernel (K7).
 
-def main : IO Unit := lineLoop () step
+  `{"cfg": {"fns": [[ns, ev, legacy]], "classes": [[ns, [[ev, legacy]]]],
+            "rets": [[cls, nsKey, evKey, ret]]}}`       resets the client and installs the registry
+  `{"op": "connect" | "emit" | "send" | "call" | "disconnect" | "ev", …}`   one `Input`
+  answer: `{"out": [...], "q": snapshot}`
+-/
+
+structure St where
+  cfg : Cfg
+  cli : Cli
+
+def boolOf (j : Json) (k : String) : Bool :=
+  match j.getObjVal? k with
+  | .ok (Json.bool b) => b
+  | _ => false
+
+inductive RetSpec where
+  | fixed (d : Data)
+  | echo
+
+def retOfJson (j : Json) : Except String RetSpec :=
+  match j.getObjVal? "echo" with
+  | .ok _ => pure .echo
+  | .error _ => do let d ← dataOfJson j; pure (.fixed d)
+
+def cfgOfJson (j : Json) : Except String Cfg := do
+  let fns ← (← j.getObjVal? "fns").getArr?
+  let fns ← fns.toList.mapM (fun e => do
+    let a ← e.getArr?
+    match a.toList with
+    | [n, ev, Json.bool l] => do pure ((← strOfJson n), (← strOfJson ev), l)
+    | _ => throw "bad fn entry")
+  let classes ← (← j.getObjVal? "classes").getArr?
+  let classes ← classes.toList.mapM (fun e => do
+    let a ← e.getArr?
+    match a.toList with
+    | [n, ms] => do
+      let ms ← ms.getArr?
+      let ms ← ms.toList.mapM (fun m => do
+        let p ← m.getArr?
+        match p.toList with
+        | [ev, Json.bool l] => do pure ((← strOfJson ev), l)
+        | _ => throw "bad method entry")
+      pure ((← strOfJson n), ms)
+    | _ => throw "bad class entry")
+  let rets ← (← j.getObjVal? "rets").getArr?
+  let rets ← rets.toList.mapM (fun e => do
+    let a ← e.getArr?
+    match a.toList with
+    | [Json.bool c, n, ev, r] => do
+      pure ((⟨c, (← strOfJson n), (← strOfJson ev)⟩ : Slot), (← retOfJson r))
+    | _ => throw "bad ret entry")
+  let reg : Reg := {
+    fn := fun n ev => fns.any (fun e => e.1 == n && e.2.1 == ev)
+    cls := fun n => classes.any (fun e => e.1 == n)
+    method := fun n ev => classes.any (fun e => e.1 == n && e.2.any (fun m => m.1 == ev))
+    legacy := fun s =>
+      if s.cls then classes.any (fun e => e.1 == s.nsKey && e.2.any (fun m => m.1 == s.evKey && m.2))
+      else fns.any (fun e => e.1 == s.nsKey && e.2.1 == s.evKey && e.2.2) }
+  pure {
+    resolve := reg.resolve
+    ret := fun s args =>
+      match (rets.find? (fun e => e.1 == s)).map (·.2) with
+      | some (RetSpec.fixed d) => d
+      | some RetSpec.echo => .tuple args
+      | none => .none }
+
+def evOfJson (j : Json) : Except String Ev := do
+  let k ← (← j.getObjVal? "k").getStr?
+  if k == "text" then
+    let text ← strOfJson (← j.getObjVal? "text")
+    let cls ← clsOfJson (← j.getObjVal? "cls")
+    let loads ← KCodec.loadsOfJson (← j.getObjVal? "loads")
+    -- `if encoded_packet:` — an empty frame is not decoded at all
+    if text.isEmpty then pure (.msg (.str text) (.ok (⟨EVENT, none, none, none⟩, 0)))
+    else pure (.msg (.str text) (decode cls loads text))
+  else if k == "bin" then
+    let h ← (← j.getObjVal? "hex").getStr?
+    pure (.msg (.bin (bytesOfHex h)) (.error .typeError))
+  else if k == "lost" then pure .lost
+  else if k == "close" then pure .close
+  else throw s!"bad ev {k}"
+
+def evsOfJson (j : Json) : Except String (List Ev) := do
+  let a ← j.getArr?
+  a.toList.mapM evOfJson
+
+def cbOfJson (j : Json) : Except String (Option Cb) :=
+  if j.isNull then pure none else do
+    let t ← (← j.getObjVal? "tok").getNat?
+    let k ← (← j.getObjVal? "kind").getStr?
+    pure (some ⟨t, if k == "coro" then .coro else if k == "call" then .call else .fn⟩)
+
+def inputOfJson (j : Json) : Except String Input := do
+  let op ← (← j.getObjVal? "op").getStr?
+  if op == "connect" then
+    let nss ← (← j.getObjVal? "nss").getArr?
+    let nss ← nss.toList.mapM strOfJson
+    let a ← j.getObjVal? "auth"
+    let auth : Auth := ⟨boolOf a "callable", ← optJOfJson (← a.getObjVal? "val")⟩
+    let o ← j.getObjVal? "outcome"
+    let oc ← (match o.getObjVal? "refuse" with
+      | .ok r => do let x ← jOfJson r; pure (Outcome.refuse x)
+      | .error _ => do let s ← strOfJson (← o.getObjVal? "accept"); pure (Outcome.accept s))
+    let rs ← (← j.getObjVal? "reacts").getArr?
+    let rs ← rs.toList.mapM evsOfJson
+    pure (.connect nss auth (boolOf j "wait") oc rs)
+  else if op == "emit" then
+    pure (.emit (← strOfJson (← j.getObjVal? "ev")) (← dataOfJson (← j.getObjVal? "data"))
+      (← optStrOfJson (← j.getObjVal? "ns")) (← cbOfJson (← j.getObjVal? "cb"))
+      (← evsOfJson (← j.getObjVal? "reacts")))
+  else if op == "send" then
+    pure (.send (← dataOfJson (← j.getObjVal? "data"))
+      (← optStrOfJson (← j.getObjVal? "ns")) (← cbOfJson (← j.getObjVal? "cb"))
+      (← evsOfJson (← j.getObjVal? "reacts")))
+  else if op == "call" then
+    pure (.call (← strOfJson (← j.getObjVal? "ev")) (← dataOfJson (← j.getObjVal? "data"))
+      (← optStrOfJson (← j.getObjVal? "ns")) (← (← j.getObjVal? "tok").getNat?)
+      (← evsOfJson (← j.getObjVal? "reacts")))
+  else if op == "disconnect" then pure .disconnect
+  else if op == "ev" then pure (.ev (← evOfJson (← j.getObjVal? "e")))
+  else throw s!"unknown op {op}"
+
+def cerrName : CErr → String
+  | .connectionError => "ConnectionError"
+  | .badNamespace => "BadNamespaceError"
+  | .timeout => "TimeoutError"
+  | .valueError => "ValueError"
+
+def kindName : CbKind → String
+  | .fn => "fn" | .coro => "coro" | .call => "call"
+
+def jsArr (xs : List J) : Json := Json.arr (xs.map jToJson).toArray
+
+def outToJson : Out → Json
+  | .send p =>
+    let (text, atts) := encode J.dumps p
+    Json.mkObj [("k", "send"), ("text", strToJson text),
+      ("atts", match atts with
+        | none => Json.arr #[]
+        | some a => Json.arr (a.map (fun b => Json.str (bytesToHex b))).toArray)]
+  | .close => Json.mkObj [("k", "close")]
+  | .authCall => Json.mkObj [("k", "auth")]
+  | .trig ev n tgt =>
+    Json.mkObj [("k", "trig"), ("ev", strToJson ev), ("ns", strToJson n),
+      ("tgt", match tgt with
+        | none => Json.null
+        | some (s, a) => Json.mkObj [("cls", Json.bool s.cls), ("nsKey", strToJson s.nsKey),
+                                     ("evKey", strToJson s.evKey), ("args", jsArr a)])]
+  | .callback cb args =>
+    Json.mkObj [("k", "cb"), ("tok", Json.num cb.tok), ("kind", kindName cb.kind), ("args", jsArr args)]
+  | .contained e => Json.mkObj [("k", "contained"), ("e", e.name)]
+  | .result r => Json.mkObj [("k", "ret"), ("data", dataToJson r)]
+  | .raised e => Json.mkObj [("k", "exc"), ("e", cerrName e)]
+
+def snapshot (c : Cli) : Json :=
+  Json.mkObj [
+    ("connected", Json.bool c.connected),
+    ("namespaces", Json.arr (c.namespaces.map (fun e => Json.arr #[strToJson e.1, jToJson e.2])).toArray),
+    ("callbacks", Json.arr (c.cbs.map (fun e => Json.arr #[strToJson e.1, Json.num e.2.1])).toArray),
+    ("binbuf", Json.bool c.binbuf.isSome),
+    ("sid", optStrToJson c.sid),
+    ("eio", match c.eio with | .connected => "connected" | .disconnected => "disconnected")]
+
+def step (s : Option St) (j : Json) : Except String (Option St × Json) :=
+  match j.getObjVal? "cfg" with
+  | .ok cj => do
+    let cfg ← cfgOfJson cj
+    pure (some ⟨cfg, init⟩, Json.mkObj [("ok", Json.bool true)])
+  | .error _ =>
+    match s with
+    | none => throw "no cfg line yet"
+    | some st => do
+      let i ← inputOfJson j
+      let r := Client.step st.cfg st.cli i
+      pure (some ⟨st.cfg, r.1⟩,
+            Json.mkObj [("out", Json.arr (r.2.map outToJson).toArray), ("q", snapshot r.1)])
+
+def main : IO Unit := lineLoop none step
 
 end Sio.KClient
